@@ -10,12 +10,11 @@ call, any number of times, with or without bytes delivered together with the err
 
 * `RelA` — the fault-free outcome: the value (and unconsumed input) or the error of the whole-input
   model on the bytes not yet consumed;
-* the reader's error `e0`;
-* only behind the one place of `scanner.go` that still drops the error of a `PeekN` (`tryHex`:
-  `buf, _ := s.PeekN(3)`, finding ROB-7; the second one, `buf, _ = s.PeekN(6)` behind a dictionary,
-  was finding ROB-6 and is fixed as D35): a malformed-file error "name too long" with `e0` latched in
-  the scanner, and then a `#` of the data lies among the last two bytes the reader delivered
-  (`FltM`, `HashEdge`);
+* the reader's error `e0`
+
+(before the fixes of findings ROB-6 and ROB-7 there was a third outcome, behind the two `PeekN`
+calls whose error `scanner.go` dropped: `buf, _ = s.PeekN(6)` in `ReadObject`, `buf, _ := s.PeekN(3)` in
+`tryHex`)
 
 and in no case a (modelled) Go panic.  This file: the state invariant, the leaf operations, and
 `ReadName`, `ReadNumber`, `ReadInteger`, `ReadString`, `ReadHexString`.
@@ -330,24 +329,13 @@ def RelA {α : Type} (d : Bytes) (e0 : Err) (lat : Bool) (E : SB → Prop) (r : 
 def FltB {α : Type} (d : Bytes) (e0 : Err) (r : SB × Except Err α) : Prop :=
   r.2 = .error e0 ∧ GoodF d e0 true r.1
 
-/-- a `#` of the data lies among the last two bytes that the reader delivered: `srcOff` is the
-    offset at which the reader failed (nothing is read once an error is latched) -/
-def HashEdge (d : Bytes) (s : SB) : Prop := ∃ p, d[p]? = some 35 ∧ p < s.srcOff ∧ s.srcOff < p + 3
-
 /-- the scanner stands on a byte that is not `>` -/
 def NotGtF (d : Bytes) (s : SB) : Prop := ∃ c t, view d s = c :: t ∧ c ≠ 62
 
-/-- finding ROB-7, the only way in which a read error is NOT reported as such: `tryHex` has dropped
-    the error of its `PeekN(3)` (the `#` was among the last two bytes delivered before the reader
-    failed), the name went on over the one byte left in the window and hit the cap `maxNameBytes`:
-    a malformed-file error ("name too long"), with the reader's error latched in the scanner -/
-def FltM {α : Type} (d : Bytes) (e0 : Err) (r : SB × Except Err α) : Prop :=
-  r.2 = .error .malformed ∧ GoodF d e0 true r.1 ∧ HashEdge d r.1 ∧ NotGtF d r.1
-
-/-- fault-free outcome, or the reader's error, or (if `drop`) `FltM` -/
-def RelF {α : Type} (d : Bytes) (e0 : Err) (lat drop : Bool) (E : SB → Prop) (r : SB × Except Err α)
+/-- fault-free outcome, or the reader's error -/
+def RelF {α : Type} (d : Bytes) (e0 : Err) (lat : Bool) (E : SB → Prop) (r : SB × Except Err α)
     (m : Except Err (α × Bytes)) : Prop :=
-  RelA d e0 lat E r m ∨ FltB d e0 r ∨ (drop = true ∧ FltM d e0 r)
+  RelA d e0 lat E r m ∨ FltB d e0 r
 
 theorem relA_ok {α : Type} {d : Bytes} {e0 : Err} {lat : Bool} {E : SB → Prop} (s : SB) (v : α) (rest : Bytes)
     (gs : GoodF d e0 lat s) (hv : view d s = rest) : RelA d e0 lat E (s, .ok v) (.ok (v, rest)) := ⟨rfl, gs, hv⟩
@@ -355,64 +343,55 @@ theorem relA_ok {α : Type} {d : Bytes} {e0 : Err} {lat : Bool} {E : SB → Prop
 theorem relA_err {α : Type} {d : Bytes} {e0 : Err} {lat : Bool} {E : SB → Prop} (s : SB) (e : Err)
     (gs : GoodF d e0 lat s) (he : E s) : RelA (α := α) d e0 lat E (s, .error e) (.error e) := ⟨rfl, gs, he⟩
 
-theorem relF_ok {α : Type} {d : Bytes} {e0 : Err} {lat drop : Bool} {E : SB → Prop} (s : SB) (v : α) (rest : Bytes)
-    (gs : GoodF d e0 lat s) (hv : view d s = rest) : RelF d e0 lat drop E (s, .ok v) (.ok (v, rest)) :=
+theorem relF_ok {α : Type} {d : Bytes} {e0 : Err} {lat : Bool} {E : SB → Prop} (s : SB) (v : α) (rest : Bytes)
+    (gs : GoodF d e0 lat s) (hv : view d s = rest) : RelF d e0 lat E (s, .ok v) (.ok (v, rest)) :=
   Or.inl (relA_ok s v rest gs hv)
 
-theorem relF_err {α : Type} {d : Bytes} {e0 : Err} {lat drop : Bool} {E : SB → Prop} (s : SB) (e : Err)
-    (gs : GoodF d e0 lat s) (he : E s) : RelF (α := α) d e0 lat drop E (s, .error e) (.error e) :=
+theorem relF_err {α : Type} {d : Bytes} {e0 : Err} {lat : Bool} {E : SB → Prop} (s : SB) (e : Err)
+    (gs : GoodF d e0 lat s) (he : E s) : RelF (α := α) d e0 lat E (s, .error e) (.error e) :=
   Or.inl (relA_err s e gs he)
 
 /-- the reader's error returned from the state `s` -/
-theorem relF_flt {α : Type} {d : Bytes} {e0 : Err} {lat drop : Bool} {E : SB → Prop} (s : SB)
-    (m : Except Err (α × Bytes)) (gl : GoodF d e0 true s) : RelF (α := α) d e0 lat drop E (s, .error e0) m :=
-  Or.inr (Or.inl ⟨rfl, gl⟩)
-
-/-- the ROB-7 outcome returned from the state `s` -/
-theorem relF_m {α : Type} {d : Bytes} {e0 : Err} {lat : Bool} {E : SB → Prop} (s : SB)
-    (m : Except Err (α × Bytes)) (gl : GoodF d e0 true s) (he : HashEdge d s) (hn : NotGtF d s) :
-    RelF (α := α) d e0 lat true E (s, .error .malformed) m :=
-  Or.inr (Or.inr ⟨rfl, rfl, gl, he, hn⟩)
+theorem relF_flt {α : Type} {d : Bytes} {e0 : Err} {lat : Bool} {E : SB → Prop} (s : SB)
+    (m : Except Err (α × Bytes)) (gl : GoodF d e0 true s) : RelF (α := α) d e0 lat E (s, .error e0) m :=
+  Or.inr ⟨rfl, gl⟩
 
 /-- once the error is latched, every outcome leaves it latched -/
-theorem relF_goodT {α : Type} {d : Bytes} {e0 : Err} {drop : Bool} {E : SB → Prop} {r : SB × Except Err α}
-    {m : Except Err (α × Bytes)} (hr : RelF d e0 true drop E r m) : GoodF d e0 true r.1 := by
-  rcases hr with a | b | c
+theorem relF_goodT {α : Type} {d : Bytes} {e0 : Err} {E : SB → Prop} {r : SB × Except Err α}
+    {m : Except Err (α × Bytes)} (hr : RelF d e0 true E r m) : GoodF d e0 true r.1 := by
+  rcases hr with a | b
   · unfold RelA at a
     split at a
     · exact a.2.1
     · exact a.2.1
   · exact b.2
-  · exact c.2.2.1
 
-theorem relF_weaken {α : Type} {d : Bytes} {e0 : Err} {lat drop : Bool} {E E' : SB → Prop} {r : SB × Except Err α}
-    {m : Except Err (α × Bytes)} (hE : ∀ s, GoodF d e0 lat s → E s → E' s) (hr : RelF d e0 lat drop E r m) :
-    RelF d e0 lat true E' r m := by
-  rcases hr with a | b | c
+theorem relF_weaken {α : Type} {d : Bytes} {e0 : Err} {lat : Bool} {E E' : SB → Prop} {r : SB × Except Err α}
+    {m : Except Err (α × Bytes)} (hE : ∀ s, GoodF d e0 lat s → E s → E' s) (hr : RelF d e0 lat E r m) :
+    RelF d e0 lat E' r m := by
+  rcases hr with a | b
   · left
     unfold RelA at *
     split at a
     · exact a
     · exact ⟨a.1, a.2.1, hE _ a.2.1 a.2.2⟩
-  · exact Or.inr (Or.inl b)
-  · exact Or.inr (Or.inr ⟨rfl, c.2⟩)
+  · exact Or.inr b
 
 /-- a statement proved for a latched state holds for it under any `lat` -/
-theorem relF_unLat {α : Type} {d : Bytes} {e0 : Err} {lat drop : Bool} {E : SB → Prop} {r : SB × Except Err α}
-    {m : Except Err (α × Bytes)} (hr : RelF d e0 true drop E r m) : RelF d e0 lat drop E r m := by
-  rcases hr with a | b | c
+theorem relF_unLat {α : Type} {d : Bytes} {e0 : Err} {lat : Bool} {E : SB → Prop} {r : SB × Except Err α}
+    {m : Except Err (α × Bytes)} (hr : RelF d e0 true E r m) : RelF d e0 lat E r m := by
+  rcases hr with a | b
   · left
     unfold RelA at *
     split at a
     · exact ⟨a.1, a.2.1.unLat, a.2.2⟩
     · exact ⟨a.1, a.2.1.unLat, a.2.2⟩
-  · exact Or.inr (Or.inl b)
-  · exact Or.inr (Or.inr c)
+  · exact Or.inr b
 
-theorem relF_consB {d : Bytes} {e0 : Err} {lat drop : Bool} {E : SB → Prop} (x : Nat) {r : SB × Except Err Bytes}
-    {m : Except Err (Bytes × Bytes)} (hr : RelF d e0 lat drop E r m) :
-    RelF d e0 lat drop E (consB x r) (consRes x m) := by
-  rcases hr with a | b | c
+theorem relF_consB {d : Bytes} {e0 : Err} {lat : Bool} {E : SB → Prop} (x : Nat) {r : SB × Except Err Bytes}
+    {m : Except Err (Bytes × Bytes)} (hr : RelF d e0 lat E r m) :
+    RelF d e0 lat E (consB x r) (consRes x m) := by
+  rcases hr with a | b
   · left
     unfold RelA at *
     cases m with
@@ -421,81 +400,29 @@ theorem relF_consB {d : Bytes} {e0 : Err} {lat drop : Bool} {E : SB → Prop} (x
       obtain ⟨v, rest⟩ := p
       simp only [consRes_ok, consB] at a ⊢
       rw [a.1]; exact ⟨rfl, a.2⟩
-  · right; left
+  · right
     unfold FltB consB at *
     simp only []
     rw [b.1]; exact ⟨rfl, b.2⟩
-  · right; right
-    unfold FltM consB at *
-    simp only []
-    rw [c.2.1]; exact ⟨c.1, rfl, c.2.2⟩
 
 theorem hardErr_ne (e : Err) (he : e ≠ .eof) : hardErr (some e) = some e := by
   cases e <;> first | rfl | exact (he rfl).elim
 
 /-! ## `ReadName` -/
 
-theorem hex_regular_tab : ∀ c : Fin 103, (hexVal c.val).isSome = true → (isRegular c.val = true ∧ c.val ≠ 35) := by
-  decide +kernel
-
-/-- hex digits are regular characters other than `#` -/
-theorem hex_regular (c a : Nat) (h : hexVal c = some a) : isRegular c = true ∧ c ≠ 35 := by
-  have hc : c < 103 := by
-    unfold hexVal at h
-    repeat' split at h
-    all_goals first | omega | cases h
-  exact hex_regular_tab ⟨c, hc⟩ (by simp [h])
-
-/-- a view that is a suffix of the data, at the position the scanner believes to be at -/
-theorem view_eq_drop {d : Bytes} {e0 : Err} {lat : Bool} {s : SB} (gs : GoodF d e0 lat s) :
-    view d s = d.drop s.currentPos := by
-  obtain ⟨t, ht⟩ := gs.vsuf
-  have hl : t.length = s.currentPos := by
-    have := gs.posok
-    have h2 : (t ++ view d s).length = d.length := by rw [ht]
-    simp at h2; omega
-  have h3 : d.drop t.length = view d s := by
-    conv => lhs; rw [← ht]
-    simp
-  rw [← hl]
-  exact h3.symm
-
-/-- the window in terms of the positions -/
-theorem window_srcOff {d : Bytes} {e0 : Err} {lat : Bool} {s : SB} (gs : GoodF d e0 lat s) :
-    s.currentPos + (s.buf.drop s.pos).length = s.srcOff := by
-  have := gs.posok
-  have h2 := gs.coh.off_le
-  simp only [view, List.length_append, List.length_drop] at this ⊢
-  omega
-
-/-- standing on a `#` with one or two bytes in the window -/
-theorem hashEdge_of {d : Bytes} {e0 : Err} {lat : Bool} {s : SB} (gs : GoodF d e0 lat s) (rest : Bytes)
-    (hv : view d s = 35 :: rest) (h1 : 1 ≤ (s.buf.drop s.pos).length) (h3 : (s.buf.drop s.pos).length < 3) :
-    HashEdge d s := by
-  refine ⟨s.currentPos, ?_, ?_, ?_⟩
-  · have := view_eq_drop gs
-    rw [hv] at this
-    have h2 : (d.drop s.currentPos)[0]? = some 35 := by rw [← this]; rfl
-    simpa using h2
-  · have := window_srcOff gs; omega
-  · have := window_srcOff gs; omega
-
 section
 variable {d : Bytes} {e0 : Err} {src : Source} (h : FaultyOver d e0 src)
 include h
 
-/-- `tryHex` on a state standing on `#`: the fault-free decision, or — when the `PeekN(3)` fails, whose
-    error `tryHex` drops — "no escape", the error latched, at most one byte left in the window -/
-theorem tryHexF {lat : Bool} (s : SB) (gs : GoodF d e0 lat s) (rest : Bytes) (hv : view d s = 35 :: rest)
-    (hw : 1 ≤ (s.buf.drop s.pos).length) :
+/-- `tryHex` on a state standing on `#`: the fault-free decision, or the reader's error (which
+    `tryHex` hands to `ReadName` since the fix of finding ROB-7) -/
+theorem tryHexF {lat : Bool} (s : SB) (gs : GoodF d e0 lat s) (rest : Bytes) (hv : view d s = 35 :: rest) :
     (match tryHexSpec rest with
-     | some (v, rest') => (tryHexBuf src s).2 = some v ∧ GoodF d e0 lat (tryHexBuf src s).1 ∧ view d (tryHexBuf src s).1 = rest'
-     | none => (tryHexBuf src s).2 = none ∧ GoodF d e0 lat (adv 1 (tryHexBuf src s).1) ∧
+     | some (v, rest') => (tryHexBuf src s).2 = .ok (some v) ∧ GoodF d e0 lat (tryHexBuf src s).1 ∧
+        view d (tryHexBuf src s).1 = rest'
+     | none => (tryHexBuf src s).2 = .ok none ∧ GoodF d e0 lat (adv 1 (tryHexBuf src s).1) ∧
         view d (adv 1 (tryHexBuf src s).1) = rest) ∨
-    ((tryHexBuf src s).2 = none ∧ GoodF d e0 true (adv 1 (tryHexBuf src s).1) ∧
-      view d (adv 1 (tryHexBuf src s).1) = rest ∧
-      ((adv 1 (tryHexBuf src s).1).buf.drop (adv 1 (tryHexBuf src s).1).pos).length ≤ 1 ∧
-      HashEdge d (adv 1 (tryHexBuf src s).1)) := by
+    ((tryHexBuf src s).2 = .error e0 ∧ GoodF d e0 true (tryHexBuf src s).1) := by
   obtain ⟨s1, buf, err, hp, g1, v1, hw1, hadv, hout⟩ := peekAdvF h 3 (by decide) s gs
   unfold tryHexBuf
   rw [hp]
@@ -505,6 +432,7 @@ theorem tryHexF {lat : Bool} (s : SB) (gs : GoodF d e0 lat s) (rest : Bytes) (hv
     rw [hv] at h1
     simp only [List.drop_succ_cons, List.drop_zero] at h1
     rw [hv]
+    simp only []
     match rest, hadv with
     | [], _ => simp only [tryHexSpec, List.take_succ_cons, List.take_nil]; exact ⟨trivial, h1⟩
     | [_], _ => simp only [tryHexSpec, List.take_succ_cons, List.take_nil]; exact ⟨trivial, h1⟩
@@ -521,73 +449,11 @@ theorem tryHexF {lat : Bool} (s : SB) (gs : GoodF d e0 lat s) (rest : Bytes) (hv
           rw [hv] at this
           exact ⟨trivial, this.1, by simpa using this.2⟩
   · right
-    have hwl : (s1.buf.drop s1.pos).length < 3 := by rw [← hbuf]; exact hshort
-    obtain ⟨ga, va, wa⟩ := advF 1 s1 gl (by omega)
-    have hv1 : view d s1 = 35 :: rest := by rw [v1, hv]
-    have he1 := hashEdge_of gl rest hv1 (by omega) hwl
-    have hea : HashEdge d (adv 1 s1) := he1
-    have hva : view d (adv 1 s1) = rest := by rw [va, hv1]; rfl
-    have hwa : ((adv 1 s1).buf.drop (adv 1 s1).pos).length ≤ 1 := by omega
-    match buf, hshort with
-    | [], _ => exact ⟨rfl, ga, hva, hwa, hea⟩
-    | [_], _ => exact ⟨rfl, ga, hva, hwa, hea⟩
-    | [_, _], _ => exact ⟨rfl, ga, hva, hwa, hea⟩
-    | _ :: _ :: _ :: _, hs => simp at hs; omega
-
-omit h in
-/-- the loop of `ReadName` with the error latched and nothing left in the window: the reader's error -/
-theorem nameLoop_empty (fuel len : Nat) (s : SB) (gl : GoodF d e0 true s) (he0 : e0 ≠ .eof)
-    (hw : (s.buf.drop s.pos).length = 0) :
-    readNameLoopBuf src (fuel + 1) len s = (s, .error e0) := by
-  unfold readNameLoopBuf
-  rw [peekN_latched src 1 (by decide) s e0 (gl.lat rfl)]
-  have hA : s.pos + 1 > s.buf.length := by simp only [List.length_drop] at hw; omega
-  simp only [hA, if_true, hardErr_ne e0 he0]
-
-omit h in
-/-- … and with one byte left, a hex digit: the reader's error, or the cap (`FltM`) -/
-theorem nameLoop_edge (fuel len : Nat) (lat : Bool) (s : SB) (gl : GoodF d e0 true s) (he0 : e0 ≠ .eof)
-    (hh a : Nat) (tl : Bytes) (hv : view d s = hh :: tl) (hx : hexVal hh = some a)
-    (hw : (s.buf.drop s.pos).length ≤ 1) (he : HashEdge d s) (m : Except Err (Bytes × Bytes)) :
-    RelF d e0 lat true (NotGtF d) (consB 35 (readNameLoopBuf src (fuel + 2) len s)) m := by
-  obtain ⟨hreg, hne⟩ := hex_regular hh a hx
-  by_cases hw0 : (s.buf.drop s.pos).length = 0
-  · rw [nameLoop_empty (fuel + 1) len s gl he0 hw0]
-    exact relF_flt s _ gl
-  · have hwin : s.buf.drop s.pos = [hh] := by
-      have hvv : view d s = s.buf.drop s.pos ++ d.drop s.srcOff := rfl
-      rw [hv] at hvv
-      match hb : s.buf.drop s.pos, hw, hw0 with
-      | [], _, hw0 => simp at hw0
-      | [x], _, _ =>
-        rw [hb] at hvv
-        simp only [List.cons_append, List.nil_append, List.cons.injEq] at hvv
-        rw [hvv.1]
-      | _ :: _ :: _, hw, _ => simp at hw
-    unfold readNameLoopBuf
-    rw [peekN_latched src 1 (by decide) s e0 (gl.lat rfl)]
-    have hA : ¬ (s.pos + 1 > s.buf.length) := by
-      have : (s.buf.drop s.pos).length = 1 := by rw [hwin]; rfl
-      simp only [List.length_drop] at this; omega
-    simp only [hA, if_false, hwin, List.take_succ_cons, List.take_zero, hardErr_none]
-    have hd : (hh != 35 && !isRegular hh) = false := by simp [hreg]
-    have h35 : (hh == 35) = false := by simpa using hne
-    simp only [hd, Bool.false_eq_true, if_false]
-    by_cases h2 : len ≥ Gen.scanner_maxNameBytes
-    · simp only [h2, if_true]
-      have hn62 : hh ≠ 62 := by intro hc; subst hc; simp [hexVal] at hx
-      exact relF_m s _ gl he ⟨hh, tl, hv, hn62⟩
-    · simp only [h2, if_false, h35, Bool.false_eq_true]
-      obtain ⟨ga, _, wa⟩ := advF 1 s gl (by rw [hwin]; simp)
-      have hwa : ((adv 1 s).buf.drop (adv 1 s).pos).length = 0 := by
-        have : (s.buf.drop s.pos).length = 1 := by rw [hwin]; rfl
-        omega
-      rw [nameLoop_empty fuel (len + 1) (adv 1 s) ga he0 hwa]
-      exact relF_flt (adv 1 s) _ ga
+    exact ⟨rfl, gl⟩
 
 /-- the loop of `ReadName` on a failing reader (with the fuel `ReadName` gives it) -/
 theorem readNameLoopF : ∀ (fuel len : Nat) (lat : Bool) (s : SB), GoodF d e0 lat s → (view d s).length < fuel →
-    RelF d e0 lat true (NotGtF d) (readNameLoopBuf src fuel len s) (readNameBody fuel len (view d s)) := by
+    RelF d e0 lat (NotGtF d) (readNameLoopBuf src fuel len s) (readNameBody fuel len (view d s)) := by
   intro fuel
   induction fuel with
   | zero => intro len lat s gs hf; omega
@@ -626,10 +492,10 @@ theorem readNameLoopF : ∀ (fuel len : Nat) (lat : Bool) (s : SB), GoodF d e0 l
         · simp only [h2, if_true]
           exact relF_err s1 _ g1 ⟨35, rest, hv1, by decide⟩
         simp only [h2, if_false, beq_self_eq_true, if_true]
-        have T := tryHexF h s1 g1 rest hv1 hw1
+        have T := tryHexF h s1 g1 rest hv1
         generalize tryHexBuf src s1 = q at T
         obtain ⟨s2, ov⟩ := q
-        rcases T with T | ⟨t1, t2, t3, t4, t5⟩
+        rcases T with T | ⟨t1, t2⟩
         · cases hs : tryHexSpec rest with
           | none =>
             rw [hs] at T
@@ -647,27 +513,10 @@ theorem readNameLoopF : ∀ (fuel len : Nat) (lat : Bool) (s : SB), GoodF d e0 l
             simp only []
             have hl := tryHexSpec_len rest v rest' hs
             exact relF_consB v (by rw [← t3]; exact ih (len + 1) lat _ t2 (by rw [t3]; omega))
-        · -- the dropped error of `PeekN(3)`: the loop goes on over what is left in the window
-          simp only [] at t1 t2 t3 t4 t5
+        · simp only [] at t1 t2
           subst t1
           simp only []
-          cases hs : tryHexSpec rest with
-          | none =>
-            -- the model keeps the `#` as well
-            simp only []
-            exact relF_consB 35 (relF_unLat (by rw [← t3]; exact ih (len + 1) true _ t2 (by rw [t3]; omega)))
-          | some p =>
-            obtain ⟨v, rest'⟩ := p
-            simp only []
-            match rest, hs, t3, hf with
-            | hh :: l :: r, hs, t3, hf =>
-              simp only [tryHexSpec] at hs
-              cases ha : hexVal hh with
-              | none => simp [ha] at hs
-              | some a =>
-                simp only [List.length_cons] at hf
-                obtain ⟨f, rfl⟩ : ∃ f, fuel = f + 2 := ⟨fuel - 2, by omega⟩
-                exact nameLoop_edge f (len + 1) lat (adv 1 s2) t2 h.e0_ne hh a (l :: r) t3 ha t4 t5 _
+          exact relF_flt s2 _ t2
       · unfold readNameBody
         have h3' : (c == 35) = false := by simpa using h3
         by_cases h1 : (c != 35 && !isRegular c) = true
@@ -689,10 +538,9 @@ include h hsf
 def NameErrF (d : Bytes) (inp : Bytes) (s : SB) : Prop :=
   view d s = inp ∨ ((∃ r, inp = 47 :: r) ∧ ∃ c t, view d s = c :: t ∧ c ≠ 62)
 
-/-- **`ReadName` on a failing reader**: the fault-free outcome, the reader's error, or `FltM`
-    (finding ROB-7: behind the dropped error of `tryHex`'s `PeekN(3)`, at the name cap) -/
+/-- **`ReadName` on a failing reader**: the fault-free outcome or the reader's error -/
 theorem readName_fault {lat : Bool} (s : SB) (gs : GoodF d e0 lat s) :
-    RelF d e0 lat true (NameErrF d (view d s)) (readNameBuf src sf s) (readName (view d s)) := by
+    RelF d e0 lat (NameErrF d (view d s)) (readNameBuf src sf s) (readName (view d s)) := by
   have K := skipstrF h [47] (by decide) s gs
   unfold readNameBuf
   generalize hq : skipString src [47] s = q at K
@@ -708,7 +556,7 @@ theorem readName_fault {lat : Bool} (s : SB) (gs : GoodF d e0 lat s) :
       simp only [List.length_cons, List.length_nil, Nat.zero_add, List.take_succ_cons, List.take_zero,
         List.cons.injEq, and_true, List.drop_succ_cons, List.drop_zero] at k2 k4
       subst k2
-      show RelF d e0 lat true _ (readNameLoopBuf src sf 0 s1) (readNameBody (rest.length + 1) 0 rest)
+      show RelF d e0 lat _ (readNameLoopBuf src sf 0 s1) (readNameBody (rest.length + 1) 0 rest)
       have hl : rest.length + 1 ≤ sf := by
         have := gs.vlen; rw [hv] at this; simp at this; omega
       rw [readNameBody_fuel (rest.length + 1) sf 0 rest (Nat.le_refl _) hl, ← k4]
@@ -738,7 +586,7 @@ include h hsf
 
 /-- **`ReadNumber` on a failing reader**: the fault-free outcome or the reader's error -/
 theorem readNumber_fault {lat : Bool} (s : SB) (gs : GoodF d e0 lat s) :
-    RelF d e0 lat false (fun _ => True) (readNumberBuf src sf s) (readNumber (view d s)) := by
+    RelF d e0 lat (fun _ => True) (readNumberBuf src sf s) (readNumber (view d s)) := by
   obtain ⟨g1, hout⟩ := scanF h hsf (numAcc true) true ⟨false, true, [], false⟩ s gs
   have N := numAcc_scan true (view d s) ⟨false, true, [], false⟩ (by simp)
   unfold NumScanOk at N
@@ -777,7 +625,7 @@ theorem readNumber_fault {lat : Bool} (s : SB) (gs : GoodF d e0 lat s) :
 /-- **`ReadInteger` on a failing reader** (input not ending in the leading white space, as in
     `readInteger_refines`): the fault-free outcome or the reader's error -/
 theorem readInteger_fault {lat : Bool} (s : SB) (gs : GoodF d e0 lat s) (hws : (skipWS (view d s)).2 = false) :
-    RelF d e0 lat false (fun _ => True) (readIntegerBuf src sf s) (readInteger (view d s)) := by
+    RelF d e0 lat (fun _ => True) (readIntegerBuf src sf s) (readInteger (view d s)) := by
   obtain ⟨gw, wout⟩ := wsF h hsf s gs
   unfold readIntegerBuf readInteger
   generalize skipWhiteSpace src sf s = r at wout gw
@@ -875,7 +723,7 @@ theorem readOctTailF : ∀ (k oct : Nat) (lat : Bool) (s : SB), GoodF d e0 lat s
 
 /-- the loop of `ReadString` on a failing reader -/
 theorem readStringLoopF : ∀ (fuel level : Nat) (ign : Bool) (len : Nat) (lat : Bool) (s : SB), GoodF d e0 lat s →
-    RelF d e0 lat false (fun _ => True) (readStringLoopBuf src fuel level ign len s)
+    RelF d e0 lat (fun _ => True) (readStringLoopBuf src fuel level ign len s)
       (readStringBody fuel level ign len (view d s)) := by
   intro fuel
   induction fuel with
@@ -913,7 +761,7 @@ theorem readStringLoopF : ∀ (fuel level : Nat) (ign : Bool) (len : Nat) (lat :
       simp only [] at hb g1 v1
       subst hb
       simp only []
-      have rec1 : ∀ lvl ig ln, RelF d e0 lat false (fun _ => True) (readStringLoopBuf src fuel lvl ig ln s1)
+      have rec1 : ∀ lvl ig ln, RelF d e0 lat (fun _ => True) (readStringLoopBuf src fuel lvl ig ln s1)
           (readStringBody fuel lvl ig ln rest) := by
         intro lvl ig ln; rw [← v1]; exact ih lvl ig ln lat s1 g1
       by_cases c1 : (ign && b == 10) = true
@@ -955,7 +803,7 @@ theorem readStringLoopF : ∀ (fuel level : Nat) (ign : Bool) (len : Nat) (lat :
           simp only [] at hb2 g2 v2
           subst hb2
           simp only []
-          have rec2 : ∀ lvl ig ln, RelF d e0 lat false (fun _ => True) (readStringLoopBuf src fuel lvl ig ln s2)
+          have rec2 : ∀ lvl ig ln, RelF d e0 lat (fun _ => True) (readStringLoopBuf src fuel lvl ig ln s2)
               (readStringBody fuel lvl ig ln rest') := by
             intro lvl ig ln; rw [← v2]; exact ih lvl ig ln lat s2 g2
           by_cases e1 : (esc == 110) = true
@@ -1009,7 +857,7 @@ include h hsf
 
 /-- **`ReadString` on a failing reader**: the fault-free outcome or the reader's error -/
 theorem readString_fault {lat : Bool} (s : SB) (gs : GoodF d e0 lat s) :
-    RelF d e0 lat false (fun _ => True) (readStringBuf src sf s) (readString (view d s)) := by
+    RelF d e0 lat (fun _ => True) (readStringBuf src sf s) (readString (view d s)) := by
   unfold readStringBuf readString
   have hl : (view d s).length + 1 ≤ sf := by have := gs.vlen; omega
   rw [readStringBody_fuel ((view d s).length + 1) sf 1 false 0 (view d s) (Nat.le_refl _) hl]
@@ -1017,7 +865,7 @@ theorem readString_fault {lat : Bool} (s : SB) (gs : GoodF d e0 lat s) :
 
 /-- **`ReadHexString` on a failing reader**: the fault-free outcome or the reader's error -/
 theorem readHexString_fault {lat : Bool} (s : SB) (gs : GoodF d e0 lat s) :
-    RelF d e0 lat false (fun _ => True) (readHexStringBuf src sf s) (readHexString (view d s)) := by
+    RelF d e0 lat (fun _ => True) (readHexStringBuf src sf s) (readHexString (view d s)) := by
   obtain ⟨g1, hout⟩ := scanF h hsf hexAcc true ⟨none, []⟩ s gs
   have H := hexAcc_scan (view d s) ⟨none, []⟩
   simp only [List.reverse_nil, List.length_nil, appRes_nil] at H
@@ -1037,7 +885,7 @@ theorem readHexString_fault {lat : Bool} (s : SB) (gs : GoodF d e0 lat s) :
   · simp only [decide_false, Bool.false_eq_true, if_false]   -- `ScanBytes` stopped
     unfold hexFinish
     have tail : ∀ res : Bytes,
-        RelF d e0 lat false (fun _ => True) (match skipString src [62] s1 with
+        RelF d e0 lat (fun _ => True) (match skipString src [62] s1 with
                 | (s2, e2) => match e2 with
                   | some e => (s2, Except.error e)
                   | none => (s2, Except.ok res.reverse))
